@@ -57,7 +57,7 @@ k("canary_must_fail", *SUB, ["C01", "C02", "C08", "C10"], "canary")
 TL = ("timeline::verif_timeline", "mina_core", "core/src/verif_timeline.rs")
 OM = ["TimeScale::get_position"]
 for n in (0, 1, 2, 3, 4, 6, 8, 16):
-    k("prepare_frame_n%d" % n, *TL, ["C01", "C02", "C08", "C09", "C10"], "contract", function="prepare_frame",
+    k("prepare_frame_n%d" % n, *TL, ["C01", "C02", "C04", "C08", "C09", "C10"], "contract", function="prepare_frame",
       clause="None iff no keyframes; NotStarted=>(0%%,override on); Ended(p)=>(p,off); Active=>(t, on iff !repeating&&!reversing); index brackets t (hint_ok); get_position replaced by an ARBITRARY result",
       bound="boundary_times.len() == %d (binary search unwound, unwinding assertions on)" % n)
     K[-1]["omit_contracts"] = OM
@@ -79,8 +79,8 @@ k("merged_single_is_transparent", *TL, ["C12"], "contract", function="MergedTime
 K[-1]["omit_contracts"] = OM
 k("merged_disjoint_commutes", *TL, ["C12"], "contract", function="MergedTimeline::update", clause="disjoint property sets => order irrelevant", bound="2 components")
 K[-1]["omit_contracts"] = OM
-for n in (0, 1, 2, 3, 4, 5, 7):
-    k("builder_args_n%d" % n, *TL, ["C11", "C03", "C17"], "contract", function="TimelineBuilderArguments::from",
+for n in (0, 1, 2, 3, 4, 5, 7, 8, 9):
+    k("builder_args_n%d" % n, *TL, ["C11", "C03", "C17"], "contract", tier=("thorough" if n == 9 else "quick"), timeout=900, function="TimelineBuilderArguments::from",
       clause="keyframes sorted by position, boundary_times[i]==keyframes[i].time, same multiset, timing configuration reaches the TimeScale",
       bound="%d keyframes (sort_by executed, unwinding assertions on); positions/timing fully symbolic" % n)
     K[-1]["omit_contracts"] = OM
